@@ -408,6 +408,25 @@ def updateWrapper (f : Func) (injected : List Name) (expected : List (Name × Op
 /-- `wraps(f)(wrapper)` -/
 def wraps (f : Func) : Except Err Func := updateWrapper f [] []
 
+/-! stacks of decorators -/
+
+/-- `wraps` applied again on top of `w` (plain), `n` more times; newest first -/
+def stackUp (o : Opts) : Nat → List Func → Except Err (List Func)
+  | 0, ws => .ok ws
+  | _, [] => .ok []
+  | n + 1, w :: ws =>
+    match updateWrapper w [] [] o with
+    | .ok w' => stackUp o n (w' :: w :: ws)
+    | .error e => .error e
+
+/-- a call travelling down a stack of wrappers (each user wrapper calls the next function with
+    what it received); result = what the innermost user wrapper receives -/
+def travel : List Func → Call → Option Call
+  | [], c => some c
+  | w :: ws, c => match callWrapper w c with
+    | some c' => travel ws c'
+    | none => none
+
 /-! names a request removes and then adds again.  The statement says nothing about the annotation
     such a parameter ends up with (the code as it is keeps the annotation the removed parameter
     had, because `remove_arg` leaves `annotations` alone), so the correspondence does not compare
